@@ -373,7 +373,7 @@ fn gen_body_case(rng: &mut Rng) -> Case {
             };
             let mut pics_shown = vec![];
             for _ in 0..rng.below(3) { let (p, sh) = file(rng, "pics"); parts.push(p); pics_shown.push(sh) }
-            let body = encode(&parts, &EncodeOpts { boundary: b.into(), extra_headers: false, extra_at: 0, lower_header_names: false, content_type_first: false });
+            let body = encode(&parts, &EncodeOpts { boundary: b.into(), extra_headers: false, extra_at: 0, lower_header_names: false, content_type_first: false, text_ctypes: vec![] });
             let base = format!("multipart/form-data; boundary={b}");
             let ctv = match ct_class { "exact" | "charset" => Some(base), "mismatch" => Some("text/plain".into()), "prefix-sharing" => Some(format!("multipart/form-datax; boundary={b}")), "truncated" => Some("multipart/form-data"[..1 + cut % 18].to_string()), "empty" => Some(String::new()), _ => None };
             let mut headers = vec![];
